@@ -424,6 +424,22 @@ func ViaDefinedPointer(q NP) {
 	(*q).N = 2 // E-DEFPTR-EXPLICIT
 }
 
+// an alias that denotes a pointer to the type, and an alias of an alias: the same four write forms
+type PA = *T
+
+type TAA = TA
+
+func ViaAliasOfPointer(q PA, r *TAA) {
+	q.N = 1 // E-ALIASPTR-ASSIGN
+	q.N++ // E-ALIASPTR-INC
+	q.N += 1 // E-ALIASPTR-COMPOUND
+	q.Xs[0] = 1 // E-ALIASPTR-INDEX
+	r.N = 1 // E-ALIAS2-ASSIGN
+	r.N-- // E-ALIAS2-INC
+	r.N *= 2 // E-ALIAS2-COMPOUND
+	r.Xs[1] = 1 // E-ALIAS2-INDEX
+}
+
 type Helper struct{}
 
 // a METHOD of another type that merely shares the constructor's name is not the function NewT
@@ -487,6 +503,14 @@ func ZZC01Edge() {
 		{f, nd.LineOf(src, "E-DEFPTR-COMPOUND"), "IMM02", immT},
 		{f, nd.LineOf(src, "E-DEFPTR-INDEX"), "IMM04", immT},
 		{f, nd.LineOf(src, "E-DEFPTR-EXPLICIT"), "IMM01", immT},
+		{f, nd.LineOf(src, "E-ALIASPTR-ASSIGN"), "IMM01", immT},
+		{f, nd.LineOf(src, "E-ALIASPTR-INC"), "IMM03", immT},
+		{f, nd.LineOf(src, "E-ALIASPTR-COMPOUND"), "IMM02", immT},
+		{f, nd.LineOf(src, "E-ALIASPTR-INDEX"), "IMM04", immT},
+		{f, nd.LineOf(src, "E-ALIAS2-ASSIGN"), "IMM01", immT},
+		{f, nd.LineOf(src, "E-ALIAS2-INC"), "IMM03", immT},
+		{f, nd.LineOf(src, "E-ALIAS2-COMPOUND"), "IMM02", immT},
+		{f, nd.LineOf(src, "E-ALIAS2-INDEX"), "IMM04", immT},
 		// E-OUTER-OWN, E-LOCAL-*: nothing
 	}, "C01 edge forms")
 }
